@@ -68,24 +68,27 @@ struct Plan {
 
 fn plans(prop: &'static str, sweep_prop: &str, tier: &str) -> Vec<Plan> {
     let q = tier == "quick";
+    // the property's own thorough sweeps go one token deeper where that is
+    // affordable; C16 re-runs them on the async flavour at the regular depth
+    let own = prop == sweep_prop;
     let mut out = Vec::new();
     match sweep_prop {
         "C01" => {
             out.push(Plan { name: "c01-values", cfgs: starts(Cfg { handle_ops: false, ..base(prop) }), depth: if q { 4 } else { 5 } });
-            out.push(Plan { name: "c01-with-handles-and-guards", cfgs: starts(Cfg { guards: true, max_subs: 2, ..base(prop) }), depth: if q { 3 } else { 4 } });
+            out.push(Plan { name: "c01-with-handles-and-guards", cfgs: starts(Cfg { guards: true, max_subs: 2, ..base(prop) }), depth: if q { 3 } else if own { 5 } else { 4 } });
             // all subscribers polled from one task (one waker for every poll)
-            out.push(Plan { name: "c01-same-task", cfgs: starts(Cfg { handle_ops: false, full_setters: false, max_subs: 3, shared_waker: true, ..base(prop) }), depth: if q { 4 } else { 5 } });
+            out.push(Plan { name: "c01-same-task", cfgs: starts(Cfg { handle_ops: false, full_setters: false, max_subs: 3, shared_waker: true, ..base(prop) }), depth: if q { 4 } else if own { 6 } else { 5 } });
         }
         "C02" => {
             out.push(Plan { name: "c02-wakes", cfgs: starts(Cfg { full_setters: false, max_subs: 3, ..base(prop) }), depth: if q { 4 } else { 5 } });
-            out.push(Plan { name: "c02-wakes-all-setters", cfgs: starts(Cfg { max_subs: 2, handle_ops: false, guards: true, ..base(prop) }), depth: if q { 3 } else { 4 } });
+            out.push(Plan { name: "c02-wakes-all-setters", cfgs: starts(Cfg { max_subs: 2, handle_ops: false, guards: true, ..base(prop) }), depth: if q { 3 } else if own { 5 } else { 4 } });
             out.push(Plan { name: "c02-wakes-same-task", cfgs: starts(Cfg { full_setters: false, max_subs: 3, shared_waker: true, ..base(prop) }), depth: if q { 4 } else { 5 } });
         }
         "C03" => {
-            out.push(Plan { name: "c03-handles", cfgs: starts(Cfg { full_setters: false, max_handles: 3, max_weaks: 2, ..base(prop) }), depth: if q { 4 } else { 5 } });
+            out.push(Plan { name: "c03-handles", cfgs: starts(Cfg { full_setters: false, max_handles: 3, max_weaks: 2, ..base(prop) }), depth: if q { 4 } else if own { 6 } else { 5 } });
         }
         "C04" => {
-            out.push(Plan { name: "c04-guards", cfgs: starts(Cfg { full_setters: false, guards: true, ..base(prop) }), depth: if q { 4 } else { 5 } });
+            out.push(Plan { name: "c04-guards", cfgs: starts(Cfg { full_setters: false, guards: true, ..base(prop) }), depth: if q { 4 } else if own { 6 } else { 5 } });
         }
         "C19" => {
             out.push(Plan { name: "c19-counts", cfgs: starts(Cfg { full_setters: false, max_subs: 3, max_handles: 3, max_weaks: 2, ..base(prop) }), depth: if q { 4 } else { 5 } });
@@ -106,7 +109,7 @@ fn run_plans<B: Backend>(cli: &ev::Cli, prop: &'static str, sweep_props: &[&str]
                 return;
             }
             let name = format!("{}-{}", p.name, B::NAME);
-            bounds.push(json!({"sweep": name, "depth": p.depth, "configurations": p.cfgs.len(), "flavour": B::NAME}));
+            bounds.push(json!({"sweep": name, "depth": explore::depth_bound(p.depth), "configurations": p.cfgs.len(), "flavour": B::NAME}));
             let sw = Sweep { name, h: &h, cfgs: p.cfgs, depth: p.depth };
             explore::explore(&sw, opts, acc, bm);
         }
@@ -195,7 +198,7 @@ fn main() {
     }
     if prop == "C16" && acc.violations.is_empty() && !acc.cap_hit {
         for (name, cfgs, depth) in aguard_plans(&cli.tier) {
-            bounds.push(json!({"sweep": name, "depth": depth, "configurations": cfgs.len(), "flavour": "async"}));
+            bounds.push(json!({"sweep": name, "depth": explore::depth_bound(depth), "configurations": cfgs.len(), "flavour": "async"}));
             let sw = Sweep { name: name.to_string(), h: &AGuardH, cfgs, depth };
             explore::explore(&sw, &opts, &mut acc, &mut bm);
         }
